@@ -4,7 +4,7 @@
    history the path is routed to; dg f is the file's current digest text in format f; `validate_record` is
    history._validate_new_hash_list.  The same `seal` / `validate_records` are what Model/Create.v calls for every
    file and what the extracted model executes against the real tool. *)
-From MHL Require Import Model.Seal Proofs.BaseFacts Proofs.SealFacts.
+From MHL Require Import Model.Seal Model.Commands Proofs.BaseFacts Proofs.SealFacts Proofs.TreeFacts Proofs.VerifyFacts Proofs.FlatFacts.
 
 (* closed form of the record written for a file: the re-checked entries of recorded formats, then -- only if none of
    them failed -- the entries of the formats that are new for the path *)
@@ -87,3 +87,17 @@ Example C04_sequence_runs :
 Proof. eexists. split; vm_compute; reflexivity. Qed.
 Example C04_consistent_nonvacuous : consistent [] [[97%N]] dg0.
 Proof. intros e [g [r [[] _]]]. Qed.
+
+(* the last sentence at the level of the whole tool (flat tree: one history at the root): seal a tree without history
+   with any formats, then run create any number of times with ANY choice of formats per run (and -n or not) on the
+   unaltered tree: every run exits 0 and the result verifies.  Proofs/FlatFacts.v; it composes the per-file theorems
+   above with the traversal, the session, validation, commit and reload. *)
+Theorem C04_unaltered_tree_every_format_sequence_exits_0 : forall Hb matches C cdig ser kids h0 req0 nd0 ip ifl rs,
+  wf_tree C (Dir None kids) -> load C cdig (Dir None kids) = inl [h0] -> req0 <> [] -> Forall (fun x => fst x <> []) rs ->
+  let r0 := create_folder Hb matches C cdig ser (Dir None kids) req0 nd0 false ip ifl in
+  let r := run_creates Hb matches C cdig ser (fst r0) rs in
+  o_outcome (snd r0) = Exit 0 /\ Forall (fun o => o = Exit 0) (snd r) /\
+  verify_result Hb matches C cdig false (fst r) [] [] = Some (mkVR 0 [] [] []) /\
+  verify_result Hb matches C cdig true (fst r) [] [] = Some (mkVR 0 [] [] []).
+Proof. exact seal_then_sequences. Qed.
+Print Assumptions C04_unaltered_tree_every_format_sequence_exits_0.
